@@ -203,6 +203,7 @@ fn parse(mode: &str, out: &[u8], names: &BTreeSet<String>) -> Result<Parsed, Str
                 if body.is_empty() {
                     // the blank line ("" ++ terminator) between two files
                     pending.push(line.to_vec());
+                    p.tags.push("z".into());
                     cur = None;
                     continue;
                 }
@@ -221,9 +222,11 @@ fn parse(mode: &str, out: &[u8], names: &BTreeSet<String>) -> Result<Parsed, Str
                         p.seps.push(it.next());
                         p.stray.extend(it);
                     }
+                    p.tags.push(format!("h{}", names.iter().position(|n| *n == text).unwrap_or(0)));
                     p.blocks.push((text.clone(), line.to_vec()));
                     cur = Some(text);
                 } else {
+                    p.tags.push("b".into());
                     p.blocks.last_mut().unwrap().1.extend_from_slice(line);
                 }
             }
@@ -391,6 +394,23 @@ fn run_tree(case: &str, ctx: &mut Ctx, drv: &mut Driver, rep: &mut Report) {
         };
         orders.insert(pn.blocks.iter().map(|(p, _)| p.clone()).collect());
         // the cut itself: the Lean parser of the block grammar (theorem parse_join) must cut at the same places
+        if matches!(mode, "heading" | "heading-ctx") && pn.tags.len() < 20000 {
+            let reply = drv.ask(&format!("c08.parseh (lines {})", pn.tags.join(" ")));
+            let mine = format!(
+                "blocks [{}] gaps [{}] stray {} 0 bad 0",
+                pn.blocks.iter().map(|(path, b)| format!("{}:{}", names.iter().position(|x| x == path).unwrap_or(0), split_lines(b).len())).collect::<Vec<_>>().join(" "),
+                pn.seps.iter().map(|s| if s.is_some() { "1" } else { "0" }).collect::<Vec<_>>().join(" "),
+                0
+            );
+            rep.branch("grammar-cut-compared:heading");
+            if reply != mine && pn.stray.is_empty() {
+                rep.violation(Violation {
+                    kind: "impl_vs_model".into(), class: "".into(),
+                    tie: "the harness's cut of the --heading output into blocks vs BlockSpec.parseH (theorem parse_join_heading)".into(),
+                    case: case.to_string(), detail: format!("harness: {} / model: {}", &mine[..mine.len().min(200)], &reply[..reply.len().min(200)]),
+                });
+            }
+        }
         if matches!(mode, "nohead" | "nohead-ctx" | "nohead-o") && null == 0 && pn.tags.len() < 20000 {
             let reply = drv.ask(&format!("c08.parse (lines {})", pn.tags.join(" ")));
             let mine = format!(
